@@ -139,6 +139,152 @@ def ippeRotToCf (R : M3 α) : M3 α := Gen.C15.ippeRotToCf R
 /-- image point conversion in `IppeCf._cf_to_ippe`: `(-Q_cf[i][0], -Q_cf[i][1])` -/
 def ippeImgToIppe (q : α × α) : α × α := (-q.1, -q.2)
 
+
+/-! ## Object level: which ndarray objects a `Pose` holds (heap / aliasing view)
+
+The value-level model above treats a `Pose` as a value.  In Python a `Pose` OBJECT has two attributes referring to ndarray
+objects, callers hold references to their own ndarrays (and may write to them in place), `copy.copy(pose)` shares both
+references, and the `rot_matrix` / `translation` properties hand out the internal references.  What keeps pose VALUES
+independent of each other and of the caller's arrays is the code's copy discipline:
+  * `Pose.__init__` stores `np.array(arg)` — a NEW array — for both attributes,
+  * `Pose.scale` evaluates `self._t_vec * scale` into a NEW array and REBINDS the attribute,
+  * no Pose method writes into an existing array (no in-place operator, no subscript store), every other method only reads.
+The heap below makes that explicit: one address space of cells, each tagged with who may write to it. -/
+
+inductive Arr (α : Type) where
+  | mat (m : M3 α)
+  | vec (v : V3 α)
+
+/-- who holds the (only) write access to an ndarray: the caller (arrays it created, results returned to it) or nobody
+(arrays created by `Pose` for its own attributes: the library never writes into them) -/
+inductive Owner where
+  | caller
+  | pose
+  deriving DecidableEq, Repr
+
+/-- a Pose object: the addresses of its `_R_matrix` and `_t_vec` arrays -/
+structure PoseObj where
+  r : Nat
+  t : Nat
+  deriving DecidableEq, Repr
+
+structure Heap (α : Type) where
+  cells : List (Owner × Arr α)
+  objs : List PoseObj
+
+def Heap.empty : Heap α := ⟨[], []⟩
+
+def Heap.mat? (h : Heap α) (a : Nat) : Option (M3 α) :=
+  match h.cells[a]? with
+  | some (_, .mat m) => some m
+  | _ => none
+
+def Heap.vec? (h : Heap α) (a : Nat) : Option (V3 α) :=
+  match h.cells[a]? with
+  | some (_, .vec v) => some v
+  | _ => none
+
+/-- the observable value of Pose object `p` (`p.rot_matrix`, `p.translation`) -/
+def Heap.deref (h : Heap α) (p : Nat) : Option (Pose α) :=
+  match h.objs[p]? with
+  | some o =>
+    match h.mat? o.r, h.vec? o.t with
+    | some m, some v => some ⟨m, v⟩
+    | _, _ => none
+  | none => none
+
+/-- `Pose.__init__(R_matrix, t_vec)`: `np.array(R_matrix)`, `np.array(t_vec)` are two NEW arrays holding copies -/
+def Heap.newPose (h : Heap α) (m : M3 α) (v : V3 α) : Heap α :=
+  { cells := h.cells ++ [(.pose, .mat m), (.pose, .vec v)],
+    objs := h.objs ++ [⟨h.cells.length, h.cells.length + 1⟩] }
+
+/-- the events of a history: what callers do with ndarrays and Pose objects -/
+inductive HOp (α : Type) where
+  /-- the caller creates an ndarray -/
+  | newArr (a : Arr α)
+  /-- the caller overwrites one of ITS OWN arrays in place (`a[...] = ...`, `a *= 2`) -/
+  | callerWrite (addr : Nat) (a : Arr α)
+  /-- `Pose(R_matrix=<cell r>, t_vec=<cell t>)`: the arguments may be caller arrays or another pose's `rot_matrix` /
+  `translation` (the only way to clone a Pose) -/
+  | construct (r t : Nat)
+  /-- `copy.copy(pose)` (what LighthouseSystemScaler does): a new object sharing both arrays -/
+  | copyObj (p : Nat)
+  /-- `pose.scale(k)` -/
+  | scale (p : Nat) (k : α)
+  /-- `p.rotate_translate_pose(q)` -/
+  | compose (p q : Nat)
+  /-- `p.inv_rotate_translate_pose(q)` -/
+  | invCompose (p q : Nat)
+  /-- `p.rotate_translate(<cell a>)`: the result is a new array handed to the caller -/
+  | transform (p a : Nat)
+  /-- `p.inv_rotate_translate(<cell a>)` -/
+  | invTransform (p a : Nat)
+
+/-- one event; `.error .other` = an ill-formed event (dangling address, wrong kind of array, writing to an array the caller
+does not own) -/
+def Heap.step (h : Heap α) : HOp α → Except PyErr (Heap α)
+  | .newArr a => .ok { h with cells := h.cells ++ [(.caller, a)] }
+  | .callerWrite i a =>
+    match h.cells[i]?, a with
+    | some (.caller, .mat _), .mat m => .ok { h with cells := h.cells.set i (.caller, .mat m) }
+    | some (.caller, .vec _), .vec v => .ok { h with cells := h.cells.set i (.caller, .vec v) }
+    | _, _ => .error .other
+  | .construct r t =>
+    match h.mat? r, h.vec? t with
+    | some m, some v => .ok (h.newPose m v)
+    | _, _ => .error .other
+  | .copyObj p =>
+    match h.objs[p]? with
+    | some o => .ok { h with objs := h.objs ++ [o] }
+    | none => .error .other
+  | .scale p k =>
+    match h.objs[p]? with
+    | some o =>
+      match h.vec? o.t with
+      | some v =>
+        -- `self._t_vec = self._t_vec * scale`: the product is a new array, the attribute is rebound to it
+        .ok { cells := h.cells ++ [(.pose, .vec (Gen.C15.poseScaleT v k))], objs := h.objs.set p { o with t := h.cells.length } }
+      | none => .error .other
+    | none => .error .other
+  | .compose p q =>
+    match h.deref p, h.deref q with
+    | some P, some Q => let N := P.rotateTranslatePose Q; .ok (h.newPose N.R N.t)
+    | _, _ => .error .other
+  | .invCompose p q =>
+    match h.deref p, h.deref q with
+    | some P, some Q => let N := P.invRotateTranslatePose Q; .ok (h.newPose N.R N.t)
+    | _, _ => .error .other
+  | .transform p a =>
+    match h.deref p, h.vec? a with
+    | some P, some x => .ok { h with cells := h.cells ++ [(.caller, .vec (P.rotateTranslate x))] }
+    | _, _ => .error .other
+  | .invTransform p a =>
+    match h.deref p, h.vec? a with
+    | some P, some x => .ok { h with cells := h.cells ++ [(.caller, .vec (P.invRotateTranslate x))] }
+    | _, _ => .error .other
+
+/-- a history -/
+def Heap.run (h : Heap α) : List (HOp α) → Except PyErr (Heap α)
+  | [] => .ok h
+  | op :: ops =>
+    match h.step op with
+    | .ok h' => h'.run ops
+    | .error e => .error e
+
+/-! ### what the same events would do WITHOUT the copy discipline (not the code: used for a counterexample only) -/
+
+/-- a constructor that keeps the caller's arrays (`np.asarray` on float arrays) -/
+def Heap.constructNoCopy (h : Heap α) (r t : Nat) : Heap α := { h with objs := h.objs ++ [⟨r, t⟩] }
+
+/-- `self._t_vec *= scale`: writes into the existing array -/
+def Heap.scaleInPlace (h : Heap α) (p : Nat) (k : α) : Heap α :=
+  match h.objs[p]? with
+  | some o =>
+    match h.cells[o.t]? with
+    | some (w, .vec v) => { h with cells := h.cells.set o.t (w, .vec (Gen.C15.poseScaleT v k)) }
+    | _ => h
+  | none => h
+
 /-! ## Specification of the scipy conversions used by `Pose.from_rot_vec` / `Pose.from_quat` (NOT cflib code) -/
 
 /-- rotation matrix of a rotation vector (Rodrigues): what `Rotation.from_rotvec(r).as_matrix()` computes
